@@ -200,7 +200,7 @@ type PersistUpdate struct {
 // WARNING: must not modify meta.
 func (m *Meta) Persist(exec func(func() PersistUpdate)) {
 	for ti := range m.info.All() {
-		if len(ti.Indexes) >= 1 && ti.Indexes[0].Modified() {
+		if anyModified(ti.Indexes) {
 			exec(func() PersistUpdate {
 				results := make([]*btree.T, len(ti.Indexes))
 				for i, ov := range ti.Indexes {
@@ -210,6 +210,21 @@ func (m *Meta) Persist(exec func(func() PersistUpdate)) {
 			})
 		}
 	}
+}
+
+// anyModified returns whether any index has unsaved changes in its base ixbuf.
+// Looking at the first index only is not enough:
+// an index built on existing data (ensure, alter create) has rows in its btree
+// that the older indexes still have in their ixbuf layers,
+// so an add and a later delete can cancel in one base ixbuf
+// and leave a delete that must be saved in another.
+func anyModified(indexes []*index.Overlay) bool {
+	for _, ov := range indexes {
+		if ov.Modified() {
+			return true
+		}
+	}
+	return false
 }
 
 func (pu PersistUpdate) Table() string {
